@@ -250,3 +250,13 @@ class Report:
                 sys.stderr.write(f'HARNESS ERROR: {err}\n')
             return 2 if exit_code == 0 else exit_code
         return exit_code
+
+
+class Lookalike(IndexError, KeyError, ValueError, TypeError, AttributeError):
+    """What harness callbacks raise.  User code may raise anything, in
+    particular the exception types a library uses for its own control flow
+    (EAFP look-ups, "pop until empty"): an ``except`` clause inside desper
+    that is wrapped around a callback by mistake must not swallow it."""
+
+    def __str__(self):
+        return Exception.__str__(self)
